@@ -24,7 +24,7 @@ import (
 // an allocation out of proportion is a violation.
 
 type Mutation struct {
-	Kind string `json:"kind"` // flip | set | trunc | zero | splice | u24 | footer-field | header-sync | crcfix | extend
+	Kind string `json:"kind"` // flip | set | trunc | zero | splice | u24 | footer-field | header-sync | crcfix | extend | redirect
 	Off  int    `json:"off,omitempty"`
 	Len  int    `json:"len,omitempty"`
 	Val  uint64 `json:"val,omitempty"`
@@ -63,9 +63,13 @@ func BuildTable(seed uint64, cfg CfgSpec, nrefs, nlogs int, minIdx uint64) ([]by
 	}
 	span := uint64(1 + r.Intn(3))
 	w.SetLimits(minIdx, minIdx+span-1)
+	nameWidth := 3
+	if nrefs > 999 {
+		nameWidth = 5
+	}
 	var refs []Ref
 	for i := 0; i < nrefs; i++ {
-		rec := Ref{Name: fmt.Sprintf("refs/heads/n%03d", i), Idx: minIdx + uint64(r.Intn(int(span)))}
+		rec := Ref{Name: fmt.Sprintf("refs/heads/n%0*d", nameWidth, i), Idx: minIdx + uint64(r.Intn(int(span)))}
 		switch x := r.Intn(10); {
 		case x < 1:
 			rec.Kind = RefDel
@@ -81,7 +85,7 @@ func BuildTable(seed uint64, cfg CfgSpec, nrefs, nlogs int, minIdx uint64) ([]by
 			rec.Peeled = SharedOid(1+r.Intn(4), hs)
 		default:
 			rec.Kind = RefSym
-			rec.Target = "refs/heads/n000"
+			rec.Target = fmt.Sprintf("refs/heads/n%0*d", nameWidth, 0)
 		}
 		rr := toRefRecord(rec)
 		if err := w.AddRef(&rr); err != nil {
@@ -91,7 +95,7 @@ func BuildTable(seed uint64, cfg CfgSpec, nrefs, nlogs int, minIdx uint64) ([]by
 	}
 	var logs []Log
 	for i := 0; i < nlogs; i++ {
-		l := Log{Name: fmt.Sprintf("refs/heads/n%03d", i/2), Idx: minIdx + uint64(1-i%2), Old: UniqValue(i, "o", "", hs), New: UniqValue(i, "n", "", hs), Who: "A U Thor", Email: "a@b", Time: 100 + uint64(i), TZ: 60, Msg: "msg"}
+		l := Log{Name: fmt.Sprintf("refs/heads/n%0*d", nameWidth, i/2), Idx: minIdx + uint64(1-i%2), Old: UniqValue(i, "o", "", hs), New: UniqValue(i, "n", "", hs), Who: "A U Thor", Email: "a@b", Time: 100 + uint64(i), TZ: 60, Msg: "msg"}
 		lr := toLogRecord(l)
 		if err := w.AddLog(&lr); err != nil {
 			return nil, nil, nil, err
@@ -186,9 +190,83 @@ func ApplyMutations(orig []byte, muts []Mutation, other []byte) []byte {
 			}
 		case "crcfix":
 			fixCRC(b)
+		case "redirect":
+			redirectOffset(b, m)
 		}
 	}
 	return b
+}
+
+// gitVarint is the format's offset varint (most significant group first,
+// each continuation group stored minus one), written from the format
+// description.
+func gitVarint(v uint64) []byte {
+	var d [10]byte
+	i := 9
+	d[i] = byte(v & 0x7f)
+	i--
+	for {
+		v >>= 7
+		if v == 0 {
+			break
+		}
+		v--
+		d[i] = 0x80 | byte(v&0x7f)
+		i--
+	}
+	return append([]byte(nil), d[i+1:]...)
+}
+
+// redirectOffset rewrites one stored block position (an index entry, an
+// object record's position list) to the position of another block of the
+// same file - in a quarter of the cases the block that holds the entry
+// itself, which makes the index cyclic. The varint keeps its length, so
+// nothing else moves. Aligned tables only (block positions are multiples of
+// the block size).
+func redirectOffset(b []byte, m Mutation) {
+	n := len(b)
+	if n < 24+68 {
+		return
+	}
+	bs := int(b[5])<<16 | int(b[6])<<8 | int(b[7])
+	if bs < 64 || bs > n {
+		return
+	}
+	nblocks := n / bs
+	if nblocks < 3 {
+		return
+	}
+	type occ struct{ pos, l int }
+	var occs []occ
+	// stored positions of blocks 1.. are at least two varint bytes long
+	for k := 1; k < nblocks && len(occs) < 4096; k++ {
+		enc := gitVarint(uint64(k * bs))
+		from := 0
+		for {
+			i := bytes.Index(b[from:], enc)
+			if i < 0 {
+				break
+			}
+			occs = append(occs, occ{from + i, len(enc)})
+			from += i + 1
+			if len(occs) >= 4096 {
+				break
+			}
+		}
+	}
+	if len(occs) == 0 {
+		return
+	}
+	o := occs[m.Off%len(occs)]
+	target := (m.Src % nblocks) * bs
+	if m.Val&3 == 0 {
+		target = (o.pos / bs) * bs // the block holding the entry
+	}
+	enc := gitVarint(uint64(target))
+	if len(enc) != o.l {
+		return
+	}
+	copy(b[o.pos:], enc)
 }
 
 // GenCorrupt draws a damaged-table case.
@@ -202,6 +280,12 @@ func GenCorrupt(prop string, seed uint64) *RunSpec {
 	cs := CorruptSpec{TableSeed: r.U64(), NRefs: r.Pick(0, 1, 3, 8, 20, 60), NLogs: r.Pick(0, 0, 2, 6, 20), MinIdx: uint64(r.Pick(0, 1, 5))}
 	if cs.NRefs+cs.NLogs == 0 {
 		cs.NRefs = 2
+	}
+	bigTable := r.Bool(0.03)
+	if bigTable {
+		// enough records for multi-level indexes with small blocks
+		cs.NRefs = 300 + r.Intn(1500)
+		cs.NLogs = r.Pick(0, 20, 300)
 	}
 	cs.Mode = []string{"bytes", "bytes", "faulty", "stack"}[r.Intn(4)]
 	nm := 1 + r.Intn(8)
@@ -241,6 +325,9 @@ func GenCorrupt(prop string, seed uint64) *RunSpec {
 			m.Kind = "header-sync"
 		default:
 			m.Kind = "extend"
+		}
+		if (bigTable && r.Bool(0.6)) || r.Bool(0.04) {
+			m.Kind = "redirect"
 		}
 		cs.Muts = append(cs.Muts, m)
 	}
